@@ -154,29 +154,47 @@ func RunC16L(r *sim.Run) {
 	}
 	w.Advance(2 * time.Second)
 	cl := w.directClient("probe", rp)
-	report := func(u string) (bool, string) {
+	// an instance reports for every schema of the latest object that is allocated by the
+	// server, in the schema's current type (conditions of other instances, stored under
+	// an earlier version, may still carry the old type)
+	reportAs := func(u, inst string) (bool, string) {
 		o := latest[u]
 		if o == nil {
 			return false, "no object"
 		}
-		schema := ""
+		cond := &proxyv1alpha1.RateLimitCondition{ObjectMeta: metav1.ObjectMeta{Name: condName(u, inst)},
+			Spec: proxyv1alpha1.RateLimitSpec{UpstreamCluster: u, Instance: inst}}
 		for _, s := range o.Spec.FlowControl.Schemas {
-			if s.Strategy == proxyv1alpha1.GlobalAllocateLimit && s.GlobalMaxRequestsInflight != nil {
-				schema = s.Name
+			if s.Strategy != proxyv1alpha1.GlobalAllocateLimit {
+				continue
 			}
+			item := proxyv1alpha1.RateLimitItemConfiguration{Name: s.Name, Strategy: proxyv1alpha1.GlobalAllocateLimit}
+			st := proxyv1alpha1.RateLimitItemStatus{Name: s.Name}
+			switch {
+			case s.GlobalMaxRequestsInflight != nil:
+				st.MaxRequestsInflight = &proxyv1alpha1.MaxRequestsInflightFlowControlSchema{Max: 1}
+			case s.GlobalTokenBucket != nil:
+				st.TokenBucket = &proxyv1alpha1.TokenBucketFlowControlSchema{QPS: 1, Burst: 1}
+			default:
+				continue
+			}
+			cond.Spec.LimitItemConfigurations = append(cond.Spec.LimitItemConfigurations, item)
+			cond.Status.LimitItemStatuses = append(cond.Status.LimitItemStatuses, st)
 		}
-		if schema == "" {
+		if len(cond.Spec.LimitItemConfigurations) == 0 {
 			return false, "no allocate schema"
 		}
+		_ = rp.RL.Heartbeat(inst)
 		ctx, cancel := context.WithTimeout(context.Background(), 3*time.Second)
 		defer cancel()
-		_, err := cl.ProxyV1alpha1().RateLimitConditions().UpdateStatus(ctx, allocReport(u, "inst0", schema, 0, false, 0), metav1.UpdateOptions{})
+		_, err := cl.ProxyV1alpha1().RateLimitConditions().UpdateStatus(ctx, cond, metav1.UpdateOptions{})
 		w.Sc.Settle()
 		if err != nil {
 			return false, firstWords(err.Error())
 		}
 		return true, ""
 	}
+	report := func(u string) (bool, string) { return reportAs(u, []string{"inst0", "inst1"}[t.Draw(2)]) }
 	_ = rp.RL.Heartbeat("inst0")
 	nSteps := t.Range(8, 40)
 	downs := 0
